@@ -7,7 +7,7 @@ var _ = sym.Register("HC11_SignOfDet", HC11_SignOfDet)
 // HC11_SignOfDet: SignOfDet2x2(x1,y1,x2,y2) = sign(x1*y2 - y1*x2) for all integer-valued arguments
 // of the bound, the Euclid-like loop fully unrolled (integer solver variables, exact floor division).
 func HC11_SignOfDet() {
-	K := sym.Param("K", sym.Pick(3, 4))
+	K := sym.Param("K", 3)
 	sym.Bound("grid bits", K)
 	x1, y1 := sym.Float64Grid("x1", K), sym.Float64Grid("y1", K)
 	x2, y2 := sym.Float64Grid("x2", K), sym.Float64Grid("y2", K)
